@@ -44,11 +44,15 @@ SeqScript(name) ==
       [] name = "w2-32"  -> <<OpN(2), Push(EH32)>>
       [] name = "v1tap"  -> <<OpN(1), Push(TapKey)>>
       [] name = "anchor" -> <<OpN(1), Push(Raw(<<78, 115>>))>>
+      \* a key that passes the encoding rules but is not on the curve: CHECKSIG is false, NOT makes it true
+      [] name = "pkoff-not" -> <<Push(K1offc), Op("OP_CHECKSIG"), Op("OP_NOT")>>
+      [] name = "wsh-pkoff-not" -> <<Op("OP_0"), Push(HashOf("sha256", ScrElem("pkoff-not", ScriptLen(SeqScript("pkoff-not")))))>>
       \* tapscripts
       [] name = "tpk1"   -> <<Push(K1x), Op("OP_CHECKSIG")>>
       [] name = "tadd"   -> <<Push(K1x), Op("OP_CHECKSIG"), Push(K2x), Op("OP_CHECKSIGADD"), Push(KeyElem("K3", 32)), Op("OP_CHECKSIGADD"),
                               OpN(2), Op("OP_NUMEQUAL")>>
       [] name = "tsucc"  -> <<Op("OP_RETURN"), Op("OP_RESERVED")>>
+      [] name = "tsucc1" -> <<Op("OP_RESERVED")>>
       [] name = "tsucc-trunc" -> <<OpUnknown(187), AnyTrunc>>
       [] name = "ttrunc" -> <<OpN(1), AnyTrunc>>
       [] name = "tmulti" -> <<Op("OP_0"), Op("OP_0"), Op("OP_0"), Op("OP_CHECKMULTISIG")>>
@@ -73,7 +77,7 @@ SeqScript(name) ==
 ScriptNames == {"ms12", "ms23", "pk1", "pk1u", "true", "false", "empty", "two", "trunc", "if", "nop1", "csep", "wpkh1", "wpkh1u",
                 "wsh-pk1", "w0-25", "w2-32", "v1tap", "anchor", "tpk1", "tadd", "tsucc", "tsucc-trunc", "ttrunc", "tmulti", "tcsep",
                 "tbud1", "tbud2", "tbud3", "tnops", "ops200", "ops201", "ops202", "opsms201", "opsms202",
-                "wsh-ops200", "wsh-ops201", "wsh-ops202", "wsh-opsms201"}
+                "wsh-ops200", "wsh-ops201", "wsh-ops202", "wsh-opsms201", "tsucc1", "pkoff-not", "wsh-pkoff-not"}
 \* the binder reads the scripts from TLC's output
 ASSUME PrintT(<<"SCRIPTS", [n \in ScriptNames |-> SeqScript(n)]>>)
 
@@ -101,7 +105,16 @@ KP == SigElem("TAP", 0, 64, 3, 0)          \* key path signature
 \* ("pk" = the scriptPubKey, "wpkh" = the implied P2WPKH script, else a script name)
 Sc(name, sig, pk, wit, signs) == [name |-> name, sig |-> sig, pk |-> pk, wit |-> wit, signs |-> signs]
 
-Scenarios == {
+\* taproot script path: commitment of the control block x kind of leaf script.
+\* variant 0 committed; 1 wrong merkle path; 2 wrong parity bit; 5 wrong internal
+\* key; 7 wrong leaf version in the control block (the tree commits to 0xc0)
+CommitVariants == {0, 1, 2, 5, 7}
+LeafKinds == {"true", "false", "tsucc", "tsucc1"}
+CommitCtrl(kind, v) == Ctrl(kind, IF v = 7 THEN 194 ELSE 192, v, 65)
+CommitScenarios == { Sc("tr-commit-" \o kind \o "-v" \o ToString(v), <<>>, P2TR, <<Scr(kind), CommitCtrl(kind, v)>>, "pk")
+                     : kind \in LeafKinds, v \in CommitVariants }
+
+Scenarios == CommitScenarios \cup {
     \* --- pre-segwit templates
     Sc("p2pkh", Pushes(<<S0("K1"), K1c>>), P2PKH(K1c), <<>>, "pk"),
     Sc("p2pkh-wrongkey", Pushes(<<S0("K2"), K2c>>), P2PKH(K1c), <<>>, "pk"),
@@ -145,6 +158,15 @@ Scenarios == {
     Sc("ops-tap-200", <<>>, P2TR, <<Scr("ops200"), GoodCtrl("ops200")>>, "pk"),
     Sc("ops-tap-201", <<>>, P2TR, <<Scr("ops201"), GoodCtrl("ops201")>>, "pk"),
     Sc("ops-tap-202", <<>>, P2TR, <<Scr("ops202"), GoodCtrl("ops202")>>, "pk"),
+    \* --- undecodable key: the signature check is false (an error only through NULLFAIL with a non-empty signature)
+    Sc("undecodable-key-bare", Pushes(<<S0("K1")>>), SeqScript("pkoff-not"), <<>>, "pk"),
+    Sc("undecodable-key-bare-emptysig", Pushes(<<E0>>), SeqScript("pkoff-not"), <<>>, "pk"),
+    Sc("undecodable-key-p2sh", Pushes(<<S0("K1"), Scr("pkoff-not")>>), P2SHof("pkoff-not"), <<>>, "pkoff-not"),
+    Sc("undecodable-key-p2sh-emptysig", Pushes(<<E0, Scr("pkoff-not")>>), P2SHof("pkoff-not"), <<>>, "pkoff-not"),
+    Sc("undecodable-key-p2wsh", <<>>, P2WSHof("pkoff-not"), <<S1("K1"), Scr("pkoff-not")>>, "pkoff-not"),
+    Sc("undecodable-key-p2wsh-emptysig", <<>>, P2WSHof("pkoff-not"), <<E0, Scr("pkoff-not")>>, "pkoff-not"),
+    Sc("undecodable-key-p2sh-p2wsh", <<Push(Scr("wsh-pkoff-not"))>>, P2SHof("wsh-pkoff-not"), <<S1("K1"), Scr("pkoff-not")>>, "pkoff-not"),
+    Sc("undecodable-sig-p2wsh", <<>>, P2WSHof("pk1"), <<SigElem("K1", 1, 30, 1, 0), Scr("pk1")>>, "pk1"),
     \* --- P2SH
     Sc("p2sh-multisig", Pushes(<<E0, S0("K1"), Scr("ms12")>>), P2SHof("ms12"), <<>>, "ms12"),
     Sc("p2sh-multisig23", Pushes(<<E0, S0("K1"), S0("K3"), Scr("ms23")>>), P2SHof("ms23"), <<>>, "ms23"),
@@ -286,7 +308,7 @@ ASSUME \A s1, s2 \in Scenarios : s1.name = s2.name => s1 = s2
 \* Three levels so that TLC's workers share the evaluation: root, one state
 \* per scenario, one state per (scenario, flag set) with the result.
 NoScen == Sc("", <<>>, <<>>, <<>>, "")
-Pending == [ok |-> FALSE, tr |-> <<>>]
+Pending == [ok |-> FALSE, tr |-> <<>>, err |-> ""]
 Init == scen = NoScen /\ fs = "" /\ result = Pending
 Pick == /\ scen = NoScen
         /\ scen' \in Scenarios
